@@ -215,6 +215,9 @@ func exec(w *tr.Writer, sp *spec) result {
 		res["AsIdentifierName"] = call(w, "AsIdentifierName", func(ev tr.E) { ev["r"] = js.AsIdentifierName(tight(s)) })
 		again()
 		res["AsDecimalLiteral"] = call(w, "AsDecimalLiteral", func(ev tr.E) { ev["r"] = js.AsDecimalLiteral(tight(s)) })
+		res["IsIdentifierStart"] = call(w, "IsIdentifierStart", func(ev tr.E) { ev["r"] = js.IsIdentifierStart(tight(s)) })
+		res["IsIdentifierContinue"] = call(w, "IsIdentifierContinue", func(ev tr.E) { ev["r"] = js.IsIdentifierContinue(tight(s)) })
+		res["IsIdentifierEnd"] = call(w, "IsIdentifierEnd", func(ev tr.E) { ev["r"] = js.IsIdentifierEnd(tight(s)) })
 	case "css":
 		newEv(tr.E{"fam": "css", "s": tr.Ints(s), "cls_id": clsCSS(s, true), "cls_url": clsCSS(s, false)})
 		res["IsIdent"] = call(w, "IsIdent", func(ev tr.E) { ev["r"] = css.IsIdent(tight(s)) })
